@@ -540,11 +540,18 @@ func (w *ckksWorld) cover(c *engine.Chooser, s ckksSpec) {
 }
 
 // shapeScenario: LogDimensions x level x NTT flag x input type x length, default scale, mixed values.
-func ckksShapeScenario(cf ckksConf) engine.Scenario {
+// With full=true (thorough tier, LogN <= 5) the scale and the value family are enumerated as well: the complete product.
+func ckksShapeScenario(cf ckksConf, full bool) engine.Scenario {
 	name := "ckks/" + cf.name + "/shape"
 	return engine.Scenario{Name: name, Bound: -1, Fn: func(c *engine.Chooser) {
 		w := getCkksWorld(cf)
 		s := ckksSpec{scale: pow2(cf.logScale), scaleTag: "default", fam: famMixed}
+		if full {
+			scs, tags := w.scaleOptions()
+			si := c.Choose(len(scs), "scale")
+			s.scale, s.scaleTag = scs[si], tags[si]
+			s.fam = c.Choose(5, "values")
+		}
 		s.logSlots = w.maxL - c.Choose(w.maxL+1, "logSlots") // choice 0 = full packing
 		s.level = w.L - c.Choose(w.L+1, "level")
 		s.ntt = c.Choose(2, "ntt") == 0
@@ -913,7 +920,7 @@ func ckksEmbedScenario(cf ckksConf) engine.Scenario {
 func ckksScenarios(tier string) []engine.Scenario {
 	var scs []engine.Scenario
 	for _, cf := range ckksConfigs(tier) {
-		scs = append(scs, ckksShapeScenario(cf), ckksValueScenario(cf), ckksCoeffScenario(cf), ckksProductScenario(cf), ckksFFTScenario(cf), ckksEmbedScenario(cf))
+		scs = append(scs, ckksShapeScenario(cf, tier == "thorough" && cf.logN <= 5), ckksValueScenario(cf), ckksCoeffScenario(cf), ckksProductScenario(cf), ckksFFTScenario(cf), ckksEmbedScenario(cf))
 	}
 	return scs
 }
